@@ -3,6 +3,8 @@
 use serde_json::{json, Value};
 
 use crate::{
+    driver::RunReport,
+    oracle::{analyze, trace_hash},
     exec,
     model::{split_frames, FrameKind},
     scenario::{hex, AppOp, ReadEv, StreamScenario, WriteEv},
@@ -183,4 +185,32 @@ pub fn shrink_stream(sc: &StreamScenario) -> Vec<StreamScenario> {
         }
     }
     c
+}
+
+/// Run one scenario on its own implementation and keep the violations `owns` accepts.
+pub fn exec_and_filter(sc: &StreamScenario, owns: &dyn Fn(&str) -> bool) -> RunReport {
+    let out = exec::run(sc);
+    let an = analyze(sc, &out);
+    let mut rep = RunReport::default();
+    rep.trace_hash = trace_hash(&out);
+    rep.sim_ms = out.sim_ms;
+    rep.signature = an.facts.signature;
+    rep.nontrivial = an.facts.nontrivial;
+    rep.merge_maps(&an.facts.probes, &an.facts.faults);
+    for x in an.violations {
+        if owns(&x.clause) {
+            rep.violations.push(crate::oracle::Violation {
+                clause: x.clause,
+                detail: format!("[{:?}/{:?}] {}", sc.imp, sc.mode, x.detail),
+            });
+        }
+    }
+    rep
+}
+
+pub fn stream_components() -> Value {
+    json!({
+        "real": ["insim::net::blocking_impl::Framed", "insim::net::tokio_impl::Framed", "insim::net::Codec / Mode", "Packet::maybe_pong", "Packet::maybe_verify_version", "tokio::time (paused clock, advanced only by the simulator)"],
+        "stub": ["transport (SimStream: scripted Read/Write/AsyncRead/AsyncWrite)", "peer (byte script + capture of everything written)", "application task (scripted read/write/cancel/advance)", "executor (library futures polled by hand, one poll per step)"],
+    })
 }
